@@ -178,7 +178,7 @@ def _worker(args):
         # vacuity canary: the same extraction against a perturbed spec must be refuted
         nvar = 0
         if want_numeric and ob.numeric:
-            nvar = 1 if (sym_ok and tier == "quick") else (3 if sym_ok else 4)
+            nvar = 1 if (sym_ok and tier == "quick") else (2 if sym_ok else 4)
         for sizes in size_assignments(ob, nvar, seed):
             nr = run_numeric(ob, sizes, seed)
             nr["clauses"] = [c for c in nr["clauses"] if ob.keeps(c["clause"])]
